@@ -63,7 +63,7 @@ func init() {
 					if ce, ok := n.(*ast.CallExpr); ok {
 						if f := Callee(cpkg.TypesInfo, ce); f != nil && f.Name() == "Add" {
 							if se, ok := ast.Unparen(ce.Fun).(*ast.SelectorExpr); ok {
-								if fld := FieldOfSelector(cpkg.TypesInfo, se.X); fld != nil && fld.Name() == "numsym" {
+								if fld := FieldOfSelector(cpkg.TypesInfo, se.X); fld != nil && fld == c.LookupField("lisp.Runtime.numsym") {
 									if k, okc := intConst(cpkg.TypesInfo, ce.Args[0]); okc && k == 1 {
 										okCtr = true
 									}
@@ -86,7 +86,7 @@ func init() {
 			}
 			misc := ""
 			if lp := c.Pkg("parser/lexer"); lp != nil {
-				if o, ok := lp.Types.Scope().Lookup("miscWordRunes").(*types.Const); ok {
+				if o, ok := c.LookupPkgObj("parser/lexer.miscWordRunes").(*types.Const); ok {
 					misc = constant.StringVal(o.Val())
 				}
 			}
